@@ -1,5 +1,6 @@
 """Shared pieces for the stream-reader properties (C06-C12)."""
 
+import contextlib
 import io
 import socket
 
@@ -151,6 +152,16 @@ def make_source(data: bytes, kind="bytesio"):
         return pipe_stream(data, int(kind.split(":")[1]))
     if kind == "tracking":
         return TrackingStream(data)
+    if kind == "rawpipe":
+        return PipeLike(data, None)  # unbuffered raw stream (reads are served in full, as a blocking pipe does)
+    if kind == "fileio":
+        import tempfile
+
+        f = tempfile.TemporaryFile(buffering=0)  # io.FileIO: unbuffered real file
+        f.write(data)
+        f.seek(0)
+        _OPEN.append(f)
+        return f
     raise ValueError(kind)
 
 
@@ -171,11 +182,12 @@ class ScriptedSocket(socket.socket):
     hands out `data` following `chunks` (sizes), never more than bufsize, then
     ends with `end`: 'close' (b''), 'timeout' (TimeoutError) or 'oserror'."""
 
-    def __init__(self, data: bytes, chunks, end="close", pauses=()):
+    def __init__(self, data: bytes, chunks, end="close", pauses=(), pause_exc=TimeoutError):
         super().__init__(socket.AF_INET, socket.SOCK_STREAM)
         self._data = data
         self._pos = 0
         self._pauses = set(pauses)  # byte offsets before which one TimeoutError is raised
+        self._pause_exc = pause_exc  # (BlockingIOError: what a non-blocking socket raises when nothing is queued)
         self._chunks = list(chunks)
         self._ci = 0
         self._end = end
@@ -196,7 +208,7 @@ class ScriptedSocket(socket.socket):
             return b""  # like a real socket: a zero-size request returns nothing
         if self._pos in self._pauses:
             self._pauses.discard(self._pos)
-            raise TimeoutError("scripted quiet period")
+            raise self._pause_exc("scripted quiet period")
         want = self._chunks[self._ci] if self._ci < len(self._chunks) else len(self._data)
         self._ci += 1
         n = max(1, min(bufsize, want, len(self._data) - self._pos))
@@ -328,12 +340,49 @@ def mk_reader(stream, opts, handler=None):
 _RIVALS = []
 
 
+@contextlib.contextmanager
+def deadline(seconds=120):
+    """A blocking call that never returns (a lock that is never released, a read
+    that waits for ever) cannot be caught by counting steps: an interval timer
+    interrupts it and HarnessHang is raised in the main thread.  The budget is
+    orders of magnitude above what any case needs."""
+    import signal
+    import threading
+
+    if threading.current_thread() is not threading.main_thread() or _DEADLINE[0]:
+        yield
+        return
+
+    def on_alarm(signum, frame):
+        raise HarnessHang(f"blocked for more than {seconds} s")
+
+    _DEADLINE[0] = True
+    old = signal.signal(signal.SIGALRM, on_alarm)
+    signal.setitimer(signal.ITIMER_REAL, seconds)
+    try:
+        yield
+    finally:
+        signal.setitimer(signal.ITIMER_REAL, 0)
+        signal.signal(signal.SIGALRM, old)
+        _DEADLINE[0] = False
+
+
+_DEADLINE = [False]
+
+
 def read_all(stream, opts, handler=None, resume=False, limit=None):
     """Iterate a reader to the end.  -> (items, exc | None).
     resume=True: after an exception the iteration is resumed (ERR_RAISE traces)."""
+    with deadline():
+        return _read_all(stream, opts, handler, resume, limit)
+
+
+def _read_all(stream, opts, handler=None, resume=False, limit=None):
     rd = mk_reader(stream, opts, handler)
     items, excs = [], []
     steps = 0
+    if limit is None and resume:
+        limit = 1000000
     while True:
         steps += 1
         if limit is not None and steps > limit:
